@@ -39,6 +39,9 @@ def build_roots(kinds):
         add('r_zero_%s' % K, 'pub fn r_zero_%s() -> %s { num_traits::Zero::zero() }' % (K, VI), kind='const', c=0, K=K)
         add('r_one_%s' % K, 'pub fn r_one_%s() -> %s { num_traits::One::one() }' % (K, VI), kind='const', c=1, K=K)
         add('r_is_zero_%s' % K, 'pub fn r_is_zero_%s(a: %s) -> bool { num_traits::Zero::is_zero(&a) }' % (K, VI), kind='is_zero', K=K)
+        # the in-place forms (provided methods of Zero / One unless a type overrides them): the previous contents must not survive
+        add('r_set_zero_%s' % K, 'pub fn r_set_zero_%s(a: %s) -> %s { let mut v = a; num_traits::Zero::set_zero(&mut v); v }' % (K, VI, VI), kind='const', c=0, K=K)
+        add('r_set_one_%s' % K, 'pub fn r_set_one_%s(a: %s) -> %s { let mut v = a; num_traits::One::set_one(&mut v); v }' % (K, VI, VI), kind='const', c=1, K=K)
         add('r_as_%s' % K, 'pub fn r_as_%s(a: %s) -> %s<f64> { a.as_() }' % (K, VI, K), kind='as', K=K)
         add('r_numcast_%s' % K, 'pub fn r_numcast_%s(a: %s) -> Option<%s<u8>> { a.numcast() }' % (K, VI, K), kind='numcast', K=K)
         for tr, f, ne in APPROX:
@@ -66,6 +69,9 @@ def build_roots(kinds):
             add('r_mzero_%s' % tag, 'pub fn r_mzero_%s() -> %s { num_traits::Zero::zero() }' % (tag, MI), kind='mconst', c='zero', n=n, l=L)
             add('r_mone_%s' % tag, 'pub fn r_mone_%s() -> %s { num_traits::One::one() }' % (tag, MI), kind='mconst', c='one', n=n, l=L)
             add('r_mis_zero_%s' % tag, 'pub fn r_mis_zero_%s(a: %s) -> bool { num_traits::Zero::is_zero(&a) }' % (tag, MI), kind='mis_zero', n=n, l=L, max_paths=400)
+            add('r_mset_zero_%s' % tag, 'pub fn r_mset_zero_%s(a: %s) -> %s { let mut m = a; num_traits::Zero::set_zero(&mut m); m }' % (tag, MI, MI), kind='mconst', c='zero', n=n, l=L)
+            add('r_mset_one_%s' % tag, 'pub fn r_mset_one_%s(a: %s) -> %s { let mut m = a; num_traits::One::set_one(&mut m); m }' % (tag, MI, MI), kind='mconst', c='one', n=n, l=L)
+            add('r_mis_one_%s' % tag, 'pub fn r_mis_one_%s(a: %s) -> bool { num_traits::One::is_one(&a) }' % (tag, MI), kind='mis_one', n=n, l=L, max_paths=400)
             add('r_mdefeps_%s' % tag, 'pub fn r_mdefeps_%s() -> (f32, f32, u32) { (<%s as approx::AbsDiffEq>::default_epsilon(), <%s as approx::RelativeEq>::default_max_relative(), <%s as approx::UlpsEq>::default_max_ulps()) }' % (tag, MF, MF, MF), kind='defeps')
     add('r_qdefeps', 'pub fn r_qdefeps() -> (f32, f32, u32) { (<Quaternion<f32> as approx::AbsDiffEq>::default_epsilon(), <Quaternion<f32> as approx::RelativeEq>::default_max_relative(), <Quaternion<f32> as approx::UlpsEq>::default_max_ulps()) }', kind='defeps')
     for tr, f, ne in APPROX:
@@ -160,6 +166,10 @@ def run(ctx):
                 n = m['n']; Mx = msyms('a0', m['l'], n)
                 preds = [eq(Mx[i][j], C(0)) for i in range(n) for j in range(n)]
                 all_or_none(ctx, key, rs, preds, 'paths: matrix is_zero iff all elements are zero', w, lambda p: truth(p.ret))
+            elif k == 'mis_one':
+                n = m['n']; Mx = msyms('a0', m['l'], n)
+                preds = [eq(Mx[i][j], C(1 if i == j else 0)) for i in range(n) for j in range(n)]
+                all_or_none(ctx, key, rs, preds, 'paths: matrix is_one iff it is the identity', w, lambda p: truth(p.ret))
             elif k == 'is_zero':
                 a = vsyms('a0', m['K'])
                 preds = [eq(x, C(0)) for x in a]
